@@ -53,6 +53,29 @@ def _run_one(pid, m):
         remove_scratch(d)
 
 
+def _run_patch(pid, patch):
+    """Apply a behaviour-preserving refactoring patch (selftest/refactors/*.diff, produced by
+    independent sub-agents and confirmed to keep the 103 tests green) to a scratch copy
+    and run the check: it must stay silent."""
+    base = repo_root()
+    d = make_scratch(None, base)
+    try:
+        r = subprocess.run(["git", "apply", "--whitespace=nowarn", str(patch)], cwd=str(d), capture_output=True, text=True)
+        if r.returncode != 0:
+            return patch.name, "skipped", "patch does not apply to the current tree", set()
+        env = dict(os.environ, GECKO_REPO=str(d), VERIF_SCRATCH_DIR=str(d / "_out"), VERIF_TIER="quick")
+        r = subprocess.run([str(VERIF / "check"), pid, "--tier", "quick"], env=env, capture_output=True, text=True, timeout=300)
+        keys = set()
+        for line in r.stdout.splitlines():
+            mm = LINE.match(line)
+            if mm:
+                keys.add((mm.group(1), mm.group(2)))
+        errs = [l for l in r.stdout.splitlines() if l.startswith("ANALYSIS-ERROR")]
+        return patch.name, "ran", (r.returncode, errs[:2]), keys
+    finally:
+        remove_scratch(d)
+
+
 def run(ctx):
     sys.path.insert(0, str(VERIF))
     try:
@@ -96,6 +119,25 @@ def run(ctx):
             else:
                 misses.append(f"{m['id']}: behaviour-preserving twin raised {sorted(new)[:3]} rc={rc}")
         report.append({"id": m["id"], "expect": m["expect"], "outcome": "ok" if ok else "MISS", "rc": rc, "new": sorted(map(list, new))[:4]})
+    # behaviour-preserving refactoring twins
+    patches = sorted((VERIF / "selftest" / "refactors").glob("*.diff"))
+    twin_ok = twin_skipped = 0
+    with ThreadPoolExecutor(max_workers=min(8, os.cpu_count() or 4)) as ex:
+        for name, status, rc, keys in ex.map(lambda pp: _run_patch(ctx.pid, pp), patches):
+            if status == "skipped":
+                twin_skipped += 1
+                report.append({"id": name, "expect": "silent", "outcome": "skipped", "why": rc})
+                continue
+            new = keys - base_all
+            code, errs = rc
+            ok = not new and code == (1 if base_new else 0)
+            if ok:
+                twin_ok += 1
+            else:
+                misses.append(f"refactoring twin {name}: expected silence, got rc={code} new={sorted(new)[:3]} {errs}")
+            report.append({"id": name, "expect": "silent", "outcome": "ok" if ok else "MISS", "rc": code, "new": sorted(map(list, new))[:4]})
+    ctx.count("selftest:refactoring_twins_silent", twin_ok)
+    ctx.count("selftest:refactoring_twins_skipped", twin_skipped)
     ctx.extra["selftest"] = {"entries": len(muts), "fired_as_expected": fired, "silent_as_expected": silent, "skipped": skipped, "misses": misses, "results": report}
     ctx.count("selftest:entries", len(muts))
     ctx.count("selftest:fired_as_expected", fired)
